@@ -129,6 +129,9 @@ func (s *Spec) Eval() (map[string]*TState, error) {
 		}
 		sort.Strings(fp)
 		plat := Platform
+		if s.Platform != "" {
+			plat = s.Platform
+		}
 		if t.HasTag("multiplatform-cache") {
 			plat = "*"
 		}
